@@ -16,6 +16,7 @@ CONSTANTS
   MaxOps = 3
   MaxLive = 100
   WithRestart = TRUE
+  SimPrint = FALSE
   DelW = 1
   RestartW = 1
   PartialOverlapChecked = TRUE
